@@ -23,7 +23,7 @@ EXPLANATION = (
     "and nothing else. C05.e (twin evaluations of one curve): the daily root expansion is the difference of the potential-depth curve "
     "at today's and yesterday's development time; the two evaluations receive the same sequence of definitions (after renaming the "
     "time variable) - in particular the restrictive-layer correction is applied to both or to neither - otherwise the difference is "
-    "negative and the roots shrink. C05.f: the stress multiplier of the harvest index reaches the adjusted index only through the limit 1 + dHI0/100 (must-pass-through; the cap on the product of the pre- and post-anthesis factors, not on one factor). C05.g: in the restrictive-layer correction the penetrability fraction multiplies potential depth (potential -> actual) and divides the crossed thickness (actual -> potential). C05.h: = C04.d (the submergence factor of ponded-water transpiration stays >= 0: a negative daily transpiration makes biomass decrease). C05.i: yesterday's development time in root_development is today's delay-adjusted time minus the day's increment (1 day / the day's degree days), per calendar type, by polynomial normal form. C05.j (canopy cover <= CCx, structural half): in canopy_cover a raw arithmetic value reaches the canopy-cover fields only through a bound - cc_development, min with a bounded arm, a dominating clamp `if v > B: v = B`, a guard `v < bounded`, or a clamp right after the store. C05.k (deviant sibling): every division of the thermal-time conversion by a difference of calendar stages is preceded by a test of that difference against 0 (raise or positive fallback). C05.l (T-ARGS): no call below the daily step binds two positional arguments crosswise (e.g. the day's minimum and maximum temperature handed to the degree-day routine). NOT decided: canopy envelope, harvest-index monotonicity, root depth <= Zmax, degree-day range "
+    "negative and the roots shrink. C05.f: the stress multiplier of the harvest index reaches the adjusted index only through the limit 1 + dHI0/100 (must-pass-through; the cap on the product of the pre- and post-anthesis factors, not on one factor). C05.g: in the restrictive-layer correction the penetrability fraction multiplies potential depth (potential -> actual) and divides the crossed thickness (actual -> potential). C05.h: = C04.d (the submergence factor of ponded-water transpiration stays >= 0: a negative daily transpiration makes biomass decrease). C05.i: yesterday's development time in root_development is today's delay-adjusted time minus the day's increment (1 day / the day's degree days), per calendar type, by polynomial normal form. C05.j (canopy cover <= CCx, structural half): in canopy_cover a raw arithmetic value reaches the canopy-cover fields only through a bound - cc_development, min with a bounded arm, a dominating clamp `if v > B: v = B`, a guard `v < bounded`, or a clamp right after the store. C05.k (deviant sibling): every division of the thermal-time conversion by a difference of calendar stages is preceded by a test of that difference against 0 (raise or positive fallback). C05.l (T-ARGS): no call below the daily step binds two positional arguments crosswise (e.g. the day's minimum and maximum temperature handed to the degree-day routine). C05.m (= T-TIME): development times, delays and stage lengths are combined in one unit per calendar type. C05.n: the season reset clears the cumulative degree days and the two delay counters on every path (not only for thermal-time crops): the reported cumulative value is the sum of the season's daily degree days. NOT decided: canopy envelope, harvest-index monotonicity, root depth <= Zmax, degree-day range "
     "(numeric trajectories).")
 
 ZERO_COLS = ["dap", "gdd_cum", "z_root", "canopy_cover", "canopy_cover_ns", "biomass", "biomass_ns",
@@ -31,6 +31,10 @@ ZERO_COLS = ["dap", "gdd_cum", "z_root", "canopy_cover", "canopy_cover_ns", "bio
 
 
 def run(chk, prog, tier):
+    from ._timeunits import time_units
+    from ..common import STEP_FN as _STEP, RESET_FN as _RESET
+    chk.floor("C05.m", time_units(chk, prog, "C05.m", set(prog.reachable_from(_STEP)) | set(prog.reachable_from(_RESET)) | {_STEP}), 120,
+              "expressions and stores carrying a time unit below the daily step and the season reset")
     res = batch(prog, [{}])[0]
     chk.fn(STEP_FN)
     loc = prog.func(STEP_FN).loc(row_writers(prog)["crop_growth"])
@@ -62,6 +66,9 @@ def run(chk, prog, tier):
     rule_g(chk, prog)
     rule_j(chk, prog)
     rule_k(chk, prog)
+    # C05.n: the thermal-time counters start every season at 0 (cumulative degree days = sum of the season's daily values)
+    from .c07 import rule_f as cleared_by_reset
+    cleared_by_reset(chk, prog, rule="C05.n", flags={"gdd_cum": 0, "delayed_gdds": 0, "delayed_cds": 0})
     from ._args import arg_swaps
     chk.floor("C05.l", arg_swaps(chk, prog, "C05.l", prog.reachable_from(STEP_FN)), 45, "positional calls of repository functions below the daily step")
     chk.assume("A-1")
